@@ -142,6 +142,11 @@ def eval_case(case):
         spec['hostkeys']['ssh-ed25519'] = {'t': 'ed25519'}
         spec['moduli'] = [case['gex_bits']]
         spec['gex_style'] = 'openssh' if case['gex_bits'] == 2048 else 'roundup'
+        if case.get('cert_ca'):
+            # RSA certificates under every name they go by: a large host key signed by a CA of its own size / kind
+            ca = {'t': 'rsa', 'bits': case['cert_ca']} if isinstance(case['cert_ca'], int) else {'t': 'ecdsa', 'curve': case['cert_ca']}
+            for k in ('ssh-rsa-cert-v01@openssh.com', 'rsa-sha2-256-cert-v01@openssh.com', 'rsa-sha2-512-cert-v01@openssh.com'):
+                spec['hostkeys'][k] = {'t': 'cert', 'kind': 'ssh-rsa-cert-v01@openssh.com', 'bits': case.get('cert_bits', 4096), 'ca': ca}
     db = gens.db()
     fails = []
     outs = {}
@@ -164,7 +169,7 @@ def eval_case(case):
     rated, recs, recognised, product = check_document(doc, lists, banner, fails)
     n_rated = sum(1 for v in rated.values() if v[0] or v[1])
     nt = recognised and n_rated > 0
-    cl = ['product:%s' % (product or ('unversioned' if recognised else 'unrecognised')), 'rated:%d' % min(n_rated, 5), 'recs:%d' % min(len(recs), 8)] + (['probes'] if case.get('probes') else [])
+    cl = ['product:%s' % (product or ('unversioned' if recognised else 'unrecognised')), 'rated:%d' % min(n_rated, 5), 'recs:%d' % min(len(recs), 8)] + (['probes'] if case.get('probes') else []) + (['rsa-cert-ca:%s' % case['cert_ca']] if case.get('cert_ca') else []) + (['long-list'] if max(len(lists[c]) for c in CATS) > 250 else [])
     return mkres(case, nt=nt, classes=cl, fails=fails[:6])
 
 
@@ -191,7 +196,7 @@ def strat_case():
     banners = [BANNERS[p] % v for p in BANNERS for v in V[p]]
 
     def build(t):
-        kex, key, enc, mac, b1, b2, which, probes, rsa_bits, gex_bits = t
+        kex, key, enc, mac, b1, b2, which, probes, rsa_bits, gex_bits, cert, filler = t
         banner = b1 if which < 8 else b2
         lists = {'kex': list(dict.fromkeys(kex)), 'key': list(dict.fromkeys(key)), 'enc': list(dict.fromkeys(enc)), 'mac': list(dict.fromkeys(mac))}
         case = {'lists': lists, 'banner': banner, 'probes': probes}
@@ -203,10 +208,17 @@ def strat_case():
             lists['kex'] = ['curve25519-sha256'] + [k for k in lists['kex'] if k != 'curve25519-sha256'] + (['diffie-hellman-group-exchange-sha256'] if 'diffie-hellman-group-exchange-sha256' not in lists['kex'] else [])
             lists['key'] = list(dict.fromkeys(lists['key'] + ['rsa-sha2-512', 'ssh-ed25519']))
             case.update(rsa_bits=rsa_bits, gex_bits=gex_bits)
+            if cert is not None:
+                lists['key'] = list(dict.fromkeys(['rsa-sha2-512-cert-v01@openssh.com', 'rsa-sha2-256-cert-v01@openssh.com'][: 1 + which % 2] + lists['key']))
+                case.update(cert_ca=cert, cert_bits=[3072, 4096, 2048][which % 3])
+        if filler:
+            # a peer may advertise far more names than the table holds: a few hundred unknown ones in front of the known ones
+            cat = CATS[which % 4]
+            lists[cat] = ['filler-%03d@example.com' % i for i in range(filler)] + lists[cat]
         return case
     nl = lambda c: st.lists(gens.name(c, empty=False, weird=False), min_size=1, max_size=6)
     return st.tuples(nl('kex'), nl('key'), nl('enc'), nl('mac'), st.sampled_from(banners), st.sampled_from(UNVERSIONED + UNRECOGNISED), st.integers(0, 9), st.sampled_from([False, False, True]),
-                     st.sampled_from([1024, 2048, 3072, 4096]), st.sampled_from([1024, 2048, 3072, 4096])).map(build)
+                     st.sampled_from([1024, 2048, 3072, 4096]), st.sampled_from([1024, 2048, 3072, 4096]), st.sampled_from([None, None, 1024, 2048, 3072, 4096, 'nistp256', 'nistp384']), st.sampled_from([0] * 25 + [255, 256, 257, 300, 520])).map(build)
 
 
 def valid_case(case):
